@@ -1033,6 +1033,18 @@ class Gen:
                 out.append({'k': 'dim', 'shared': False, 'name': n, 'bounds': None,
                             'ty': ty, 'as': True})
                 sc.vars[n] = ty
+        # scalars declared with AS (no suffix): a procedure may declare a
+        # local of the same name with another type
+        self.as_scalars = []
+        if r.random() < self.p.get('as_collide', 0.4):
+            for _ in range(r.randint(1, 2)):
+                ty = r.choice(self.num_types)
+                n = self.fresh('w')
+                out.append({'k': 'dim', 'shared': False, 'name': n, 'bounds': None,
+                            'ty': ty, 'as': True})
+                out.append({'k': 'let', 'lv': ['var', n], 'e': self.lit(ty)})
+                sc.vars[n] = ty
+                self.as_scalars.append((n, ty))
         # a few scalars of each type, assigned up front
         for ty in list(self.num_types) + (['$'] if self.p['strings'] else []):
             for _ in range(r.randint(1, 2)):
@@ -1120,6 +1132,16 @@ class Gen:
             sc.consts[n] = ty
         if self.p['arrays'] and r.random() < 0.3:
             body += self.dim_array(sc, allow_dyn=False)
+        if getattr(self, 'as_scalars', None) and r.random() < max(0.5, self.p.get('as_collide', 0)):
+            # a local with the name of a module-level AS-declared variable,
+            # of another numeric type where there is one
+            n, mty = r.choice(self.as_scalars)
+            others = [t for t in self.num_types if t != mty] or [mty]
+            ty = r.choice(others)
+            body.append({'k': 'dim', 'shared': False, 'name': n, 'bounds': None,
+                         'ty': ty, 'as': True})
+            body.append({'k': 'let', 'lv': ['var', n], 'e': self.lit(ty)})
+            sc.vars[n] = ty
         for ty in self.num_types[:2]:
             n = self.new_scalar(sc, ty)
             body.append({'k': 'let', 'lv': ['var', n], 'e': self.lit(ty)})
